@@ -544,6 +544,80 @@ def settle_time_probe():
     return bad
 
 
+# ----------------------------------------------------------------------------- C31: a trip that arrived while the engine's loop was busy
+def busy_loop_trip_probe():
+    """an installed suspender trips while the engine is idle and its loop is too busy (> 0.1 s) to make the suspender's event:
+    the trip is registered all the same, and the next RE(plan) is gated until the condition is released"""
+    import threading
+    import time
+
+    from bluesky.suspenders import SuspendBoolHigh
+    from bluesky.utils import Msg
+
+    class Sig:
+        def __init__(self):
+            self.name, self.value, self.subs = "sig", 0, []
+
+        def get(self):
+            return self.value
+
+        def subscribe(self, cb, event_type=None, run=True):
+            self.subs.append(cb)
+            if run:
+                cb(value=self.value, old_value=self.value, timestamp=0.0)
+            return len(self.subs)
+
+        def clear_sub(self, cb, event_type=None):
+            self.subs = [c for c in self.subs if c is not cb]
+
+        def put(self, v):
+            old, self.value = self.value, v
+            for cb in list(self.subs):
+                cb(value=v, old_value=old, timestamp=0.0)
+
+    bad = []
+    sig = Sig()
+    RE, docs = _engine()
+    sus = SuspendBoolHigh(sig)
+    RE.install_suspender(sus)
+    _run(RE, _listplan(Msg("null")))            # the loop thread is up
+    busy = threading.Event()
+
+    def block():
+        busy.set()
+        time.sleep(0.4)
+
+    RE.loop.call_soon_threadsafe(block)
+    busy.wait(2)
+    try:
+        sig.put(1)                               # __make_event cannot reach the loop within 0.1 s
+        raised = None
+    except RuntimeError as e:
+        raised = e
+    time.sleep(0.5)
+    case = {"probe": "busy-loop-trip"}
+    if not sus.tripped:
+        bad.append(("trip-during-a-busy-loop-not-registered", f"SuspendBoolHigh saw the signal go high while the engine's loop was busy ({'RuntimeError raised' if raised else 'no error'}): tripped = {sus.tripped}", case))
+    seen = []
+    RE.msg_hook = lambda m: seen.append((m.command, sig.value))
+    box = {}
+    th = threading.Thread(target=lambda: box.update(out=_run(RE, _listplan(Msg("null", marker=1), Msg("null")))), daemon=True)
+    th.start()
+    time.sleep(0.6)
+    started_early = [s for s in seen if s[0] == "null"]
+    sig.put(0)
+    th.join(5)
+    RE.remove_suspender(sus)
+    if started_early:
+        bad.append(("plan-started-while-a-suspender-is-tripped:trip-during-a-busy-loop", f"the signal was still high, tripped = True, yet RE(plan) executed {started_early} before the release", case))
+    if th.is_alive() or box.get("out", ("?",))[0] != "return":
+        bad.append(("busy-loop-trip:plan-did-not-finish-after-release", f"{box.get('out')}", case))
+        if th.is_alive():
+            with contextlib.suppress(Exception):
+                RE.halt()
+    return bad
+
+
 # ----------------------------------------------------------------------------- C16: configuration recorded by descriptors
 def configuration_probe():
     """(a) a device whose configuration KEY SET changes when it is configured (a setting that only exists in one mode): the
@@ -1680,7 +1754,7 @@ def _run_call(f):
         return f()
 
 
-PROBES = {"stream-assets": stream_assets_probe, "settle-time": settle_time_probe, "configuration": configuration_probe, "monitor-options": monitor_options_probe, "wrapper-response": wrapper_response_probe, "inplan-subscription": inplan_subscription_probe, "equal-instances": equal_instances_probe, "raising-state-hook": raising_state_hook_probe, "replayed-group": replayed_group_probe, "noreplay-pause": noreplay_pause_probe, "second-call": second_call_probe, "nonresumable-wrapper": nonresumable_wrapper_probe, "external-assets": external_assets_probe, "metadata-store": metadata_store_probe, "dying-subscriber": dying_subscriber_probe, "classic-flyer": classic_flyer_probe, "nonrewindable-region": nonrewindable_region_probe, "relative-moves": relative_moves_probe, "stale-deferred-pause": stale_deferred_pause_probe, "reused-message": reused_message_probe, "locate": locate_probe, "run-wrapper-exception": run_wrapper_exception_probe}
+PROBES = {"busy-loop-trip": busy_loop_trip_probe, "stream-assets": stream_assets_probe, "settle-time": settle_time_probe, "configuration": configuration_probe, "monitor-options": monitor_options_probe, "wrapper-response": wrapper_response_probe, "inplan-subscription": inplan_subscription_probe, "equal-instances": equal_instances_probe, "raising-state-hook": raising_state_hook_probe, "replayed-group": replayed_group_probe, "noreplay-pause": noreplay_pause_probe, "second-call": second_call_probe, "nonresumable-wrapper": nonresumable_wrapper_probe, "external-assets": external_assets_probe, "metadata-store": metadata_store_probe, "dying-subscriber": dying_subscriber_probe, "classic-flyer": classic_flyer_probe, "nonrewindable-region": nonrewindable_region_probe, "relative-moves": relative_moves_probe, "stale-deferred-pause": stale_deferred_pause_probe, "reused-message": reused_message_probe, "locate": locate_probe, "run-wrapper-exception": run_wrapper_exception_probe}
 
 
 def add_to(res, names):
